@@ -6,7 +6,8 @@ import MM.Gen.LockC32
 
   `Reachable fx s`: `s` is reached from the empty manager by ANY sequence of completed
   handshakes (simultaneous dials are simply two `connect` steps for the same peer), frames,
-  keepalive timeouts, remote closes, Disconnect/DisconnectAll calls, read-loop teardowns, route
+  keepalive timeouts, remote closes, Disconnect/DisconnectAll calls, read-loop teardowns, read loops
+  that exit without a teardown (frame in flight at close), route
   learning and relay creation, in any interleaving.  The first two theorems hold for the code
   before and after fixes/C32-skip-stale-disconnect-callback.patch (`fx` arbitrary); the third one
   is about the fixed code and `C32_old_stale_teardown_harms` is the witness against the old one.
